@@ -337,6 +337,8 @@ impl Handler {
         let mut banned_nodes_check = tokio::time::interval(Duration::from_secs(BANNED_NODES_CHECK));
 
         loop {
+            #[cfg(feature = "verif-hooks")]
+            verif_hooks::publish_session_count(self.sessions.verif_len());
             tokio::select! {
                 Some(handler_request) = self.service_recv.recv() => {
                     match handler_request {
